@@ -140,7 +140,7 @@ class CFG(object):
     def reachable(self, src, dst, avoid=lambda n: False, cross_back_edges=True):
         """is dst reachable from src (src's successors onwards) without passing a node where avoid() holds?"""
         seen = set()
-        dq = deque(s for _, s in src.succ)
+        dq = deque(s for _, s in src.succ if cross_back_edges or not (s.loop is not None and s.id <= src.id))
         while dq:
             n = dq.popleft()
             if n.id in seen:
